@@ -68,7 +68,12 @@ pub fn run_case(case: &Case) -> Run {
     let mut obs = vec![];
     for (ci, c) in sc.clients.iter().enumerate() {
         // the behaviours that apply to this client's request
-        let behaviours: Vec<Behaviour> = case.workers.iter().map(|w| w.get(ci).copied().unwrap_or(Behaviour::Ok)).collect();
+        // (a worker that closed its channel while handling an earlier request is gone for this one)
+        let behaviours: Vec<Behaviour> = case
+            .workers
+            .iter()
+            .map(|w| if w.iter().take(ci).any(|b| matches!(b, Behaviour::Close | Behaviour::OkThenClose)) { Behaviour::Close } else { w.get(ci).copied().unwrap_or(Behaviour::Ok) })
+            .collect();
         let finals: Vec<&(u64, sozu_command_lib::proto::command::Response)> = c.responses.iter().filter(|(_, r)| r.status != ResponseStatus::Processing as i32).collect();
         // a soft stop has no deadline by design: a worker that answers late
         // acknowledges, and one that is still silent may simply be draining
@@ -108,7 +113,7 @@ pub fn run_case(case: &Case) -> Run {
             flag("failure-despite-all-workers-ok".into(), format!("client {ci} was told FAILURE ({:?}) although every worker acknowledged", r.message));
         }
         // timing: at once when every worker answered; by the worker timeout (+ one loop turn) otherwise
-        let everyone_answers = behaviours.iter().all(|b| matches!(b, Behaviour::Ok | Behaviour::Failure | Behaviour::DuplicateOk | Behaviour::ProcessingThenOk));
+        let everyone_answers = behaviours.iter().all(|b| matches!(b, Behaviour::Ok | Behaviour::Failure | Behaviour::DuplicateOk | Behaviour::ProcessingThenOk | Behaviour::OkThenClose));
         let limit = if everyone_answers { 1_000 } else { WORKER_TIMEOUT_S as u64 * 1000 + 1_500 };
         if ms - sent_ms > limit && case.verb != Verb::SoftStop {
             flag(format!("answer-late:{}", if everyone_answers { "all-answered" } else { "after-deadline" }), format!("client {ci}: final answer after {} ms, limit {limit} ms (workers {behaviours:?})", ms - sent_ms));
@@ -158,7 +163,7 @@ fn cases(tier: Tier) -> Vec<Case> {
         }
     }
     // two concurrent clients, two workers, every pair of behaviours per worker for the two requests
-    let pairs: Vec<Behaviour> = if tier == Tier::Quick { vec![Behaviour::Ok, Behaviour::Failure, Behaviour::Silent, Behaviour::DuplicateOk] } else { Behaviour::ALL.to_vec() };
+    let pairs: Vec<Behaviour> = if tier == Tier::Quick { vec![Behaviour::Ok, Behaviour::Failure, Behaviour::Silent, Behaviour::DuplicateOk, Behaviour::OkThenClose] } else { Behaviour::ALL.to_vec() };
     for a0 in &pairs {
         for a1 in &pairs {
             for b0 in &pairs {
